@@ -519,3 +519,17 @@ def inc2(tier):
                     yield dict(starts=['s'], nodes=['a', 'a2', 'A1', 'b', 'b2', 'B5', 'B6', 'c', 'c2', 'C5', 'C6'],
                                edges=[['a', 'A1'], ['b', 'B5'], ['B5', 'B6'], ['c', 'C5'], ['C5', 'C6']], incompat=pairs,
                                choices=[['K1', 's', ['a', 'a2']], ['K2', 's', ['b', 'b2']], ['K3', 's', ['c', 'c2']]])
+
+
+def inc3(tier):
+    """INC-3: node y (carrying a choice) shared by two options x1, x2 of one choice; the options p, q of another choice are
+    incompatible with every subset of {x1, x2} (removal influences that differ per option on a shared derived node)."""
+    import itertools
+    pairs = [['p', 'x1'], ['p', 'x2'], ['q', 'x1'], ['q', 'x2']]
+    for r in range(1, len(pairs)+1):
+        for inc in itertools.combinations(pairs, r):
+            for shared in (True, False):
+                edges = [['x1', 'y'], ['x2', 'y']] if shared else [['x1', 'y'], ['x2', 'y2']]
+                nodes = ['p', 'q', 'x1', 'x2', 'y', 'u1', 'u2'] + ([] if shared else ['y2'])
+                yield dict(starts=['s'], nodes=nodes, edges=edges, incompat=[list(e) for e in inc],
+                           choices=[['C2', 's', ['p', 'q']], ['C3', 's', ['x1', 'x2']], ['C4', 'y', ['u1', 'u2']]])
